@@ -116,7 +116,8 @@ fn main() {
         "deepiter" => std::process::exit(run_san::deepiter_main(opts.cases.unwrap_or(200_000) as usize)),
         "digest" => std::process::exit(run_diff::digest_main(&opts, false)),
         "digest-sub" => std::process::exit(run_diff::digest_main(&opts, true)),
-        "trace" => std::process::exit(run_diff::trace_main(&opts, &opts.replay_file.clone().unwrap_or_default())),
+        "trace" => std::process::exit(run_diff::trace_main(&opts, &opts.replay_file.clone().unwrap_or_default(), false)),
+        "trace-sub" => std::process::exit(run_diff::trace_main(&opts, &opts.replay_file.clone().unwrap_or_default(), true)),
         _ => {
             eprintln!("usage: cbverif check --prop <ID> [--tier quick|thorough] [--seed N] | replay --file <path>");
             std::process::exit(2);
@@ -415,6 +416,18 @@ fn replay(o: &Opts) -> i32 {
         Some("E3") => run_vclock::replay(o, &parts),
         Some("E1i") => run_indep::replay(o, &parts),
         Some("E6") => run_diff::replay(o, &parts),
+        Some("E1w") | Some("E3w") => {
+            println!("{} is a directed witness of a known finding; it is executed by every run of `./check {}` (see the evidence file, key known_finding_witnesses)", id, parts.get(1).unwrap_or(&""));
+            2
+        },
+        Some("E4f") | Some("E4r") | Some("E3r") | Some("E5") | Some("E2d") | Some("E2m") => {
+            println!(
+                "{} comes from a sub-step that is not driven by a recorded schedule (free-running threads, a real executor, a sanitizer, a child process or a fixed macro test); the replay file holds the recorded history; re-run `./check {} thorough` to repeat the sub-step",
+                id,
+                o.prop
+            );
+            2
+        },
         _ => {
             eprintln!("unknown engine in case id {}", id);
             2
